@@ -54,6 +54,10 @@ BOUNDS = [(-1000.0, 1000.0), (0.0, 1000.0), (-1000.0, 0.0), (0.0, 10.0), (-10.0,
 ABOVE = [(1500.0, 2500.0), (1001.0, 1001.0), (1000.5, INF), (20000.0, 30000.0)]
 BELOW = [(-2500.0, -1500.0), (-INF, -1001.0)]
 COEFS = [-3.0, -2.0, -1.0, 1.0, 2.0, 3.0, 0.5, -0.25, 1.5, 59.81, -0.000223, 1e-07, 123456.789012345, -4.0, 10.0]
+# "tame" models (about two thirds outside the precision family) draw from these: their optimum is compared as well; the
+# others carry magnitudes (1e-07, 123456.789..., 1e9) that make GLPK's answer depend on the pivoting order
+COEFS_TAME = [-3.0, -2.0, -1.0, 1.0, 2.0, 3.0, 0.5, -0.25, 1.5, 59.81, -4.0, 10.0]
+WILD_BOUNDS = {(-1e-06, 12345678.9), (5.0, 1e9), (0.001, 99999.5), (-999.999999999999, 1000.00000000001)}
 PRECISE = [1.0 / 3.0, 0.1 + 0.2, 3.141592653589793e5, 1e-12 / 3.0, -2.0 / 7.0, 1234567.0 / 9.0, 5e-324 * 1e300, 0.1]
 OBJ_COEFS = [1.0, 1.0, -1.0, 2.0, 0.5, -2.5, 10.0]
 
@@ -169,7 +173,8 @@ def build(family, seed, index):
     cname = {}
     for cid, nm in comps:
         cname.setdefault(cid, nm)
-    coef_pool = COEFS + (PRECISE if family == "precision" else [])
+    wild = family == "precision" or rng.random() < 0.35
+    coef_pool = (COEFS if wild else COEFS_TAME) + (PRECISE if family == "precision" else [])
     mets = []
     for i in range(n_mets):
         met = cobra.Metabolite(met_ids[i], name=rng.choice(NAMES), formula=rng.choice(FORMULAS),
@@ -178,7 +183,7 @@ def build(family, seed, index):
         met.notes = _notes(rng, 0.4)
         met.annotation = _ann(rng, MET_ANN, 0.5)
         mets.append(met)
-    bounds_pool = list(BOUNDS)
+    bounds_pool = [b for b in BOUNDS if wild or b not in WILD_BOUNDS]
     if family == "precision":
         bounds_pool += [(-1.0 / 3.0, 2.0 / 3.0), (0.1 + 0.2, 1e3 / 7.0), (-3.141592653589793e5, 0.0)]
     rxns = []
@@ -409,6 +414,22 @@ def diff_aspects(a, b, skip=()):
     if la[3] != lb[3]:
         out.append(("direction", None, la[3], lb[3]))
     return [x for x in out if x[0] not in skip]
+
+
+def tame(model):
+    """small, well-scaled data only: the optimal value is then computed reliably whatever the order of rows and columns"""
+    from cobra.util.solver import linear_reaction_coefficients
+    for r in model.reactions:
+        for c in r._metabolites.values():
+            if not 0.01 <= abs(c) <= 100:
+                return False
+        for b in (r.lower_bound, r.upper_bound):
+            if b not in (INF, -INF, 0) and not 0.01 <= abs(b) <= 1e4:
+                return False
+    for c in linear_reaction_coefficients(model).values():
+        if c != 0 and not 0.1 <= abs(c) <= 100:
+            return False
+    return True
 
 
 def optimum(model):
